@@ -53,6 +53,8 @@ func genCase(t *rapid.T) Case {
 		maxSteps, maxBatch = 12, 120
 	}
 	ho := gen.HistoryOpts{MaxSteps: maxSteps, MaxBatch: maxBatch, PoolSize: pool, Reopen: true, Evict: true, FieldProb: 92}
+	// the same id more than once in one update batch (merged in order; the indices must see the net change)
+	ho.AllowDupUpdate = rapid.IntRange(0, 3).Draw(t, "dupUpdate") == 0
 	c := Case{H: gen.History{Schema: schema, MaxPointSize: 1 << 20, CacheLimit: rapid.SampledFrom([]int64{-1, -1, 0, 3000}).Draw(t, "cacheLimit")}}
 	g := gen.NewHistoryGen(t, schema, c.H.MaxPointSize, ho)
 	dim, metric := gen.VectorParams(schema[gen.PVamana])
